@@ -37,11 +37,17 @@ def gen(rng, passes):
     for i in range(nb):
         pin = 2 + i
         cb = f"def on_{i}():" in L
-        form = rng.choice(["pos", "kw"])
+        form = rng.choice(["pos", "kw", "var", "expr"])
+        pin_src = str(pin)
+        if form == "var":
+            L.append(f"BTN_PIN{i} = {pin}")
+            pin_src = f"BTN_PIN{i}"
+        elif form == "expr":
+            pin_src = f"{pin - 1} + 1"
         if cb:
-            L.append(f"btn{i} = Button({pin}, on_click=on_{i})" if form == "pos" else f"btn{i} = Button(pin={pin}, on_click=on_{i})")
+            L.append(f"btn{i} = Button({pin_src}, on_click=on_{i})" if form != "kw" else f"btn{i} = Button(pin={pin_src}, on_click=on_{i})")
         else:
-            L.append(f"btn{i} = Button({pin})")
+            L.append(f"btn{i} = Button({pin_src})")
         mode = rng.choice(["bursts", "held", "bounce", "start-pressed", "idle"])
         n = passes + 1
         if mode == "bursts":
@@ -105,6 +111,14 @@ def gen(rng, passes):
             else:
                 body.append(f"pv = {p['name']}.read()")
                 body.append("mon.write(pv)")
+    for p in info["pots"]:
+        if rng.random() < 0.3:
+            # two reads in one parallel assignment are two conversions
+            body.append(f"mon.write(\"@A:{p['name']}\")")
+            body.append(f"ra, rb = {p['name']}.read(), {p['name']}.read()")
+            body.append("mon.write(ra)")
+            body.append(f"mon.write(\"@A2:{p['name']}\")")
+            body.append("mon.write(rb)")
     for u in info["us"]:
         for _ in range(rng.choice([1, 1, 2])):
             body.append(f"mon.write(\"@U:{u['name']}\")")
@@ -175,23 +189,44 @@ def monitor(events, info, passes):
         idx = 0
         fresh = 0
         waiting = False
-        for t, kind, f in events:
+        # positions of serial events that are followed (two serial lines later) by the "@A2" marker of a tuple read
+        ser_idx = [n for n, (t, kind, f) in enumerate(events) if kind == "SER"]
+        tuple_next = {}
+        for j, n in enumerate(ser_idx):
+            if j + 1 < len(ser_idx) and trace.unesc(events[ser_idx[j + 1]][2][0]) == f"@A2:{p['name']}":
+                tuple_next[n] = True
+        for evi, (t, kind, f) in enumerate(events):
             if kind == "AR" and int(f[0]) == p["pin"]:
                 fresh += 1
                 last = int(f[1])
             if kind == "SER":
                 text = trace.unesc(f[0])
-                if text == f"@A:{p['name']}":
+                if text == f"@A2:{p['name']}":
+                    waiting = "second"
+                elif text == f"@A:{p['name']}":
                     waiting = True
                     fresh = 0
+                elif waiting == "second":
+                    waiting = False
+                    counts["pot_reads"] += 1
+                    want = vals[idx] if idx < len(vals) else vals[-1]
+                    idx += 1
+                    if fresh != 2:
+                        problems.append(("pot-fresh-read", f"{p['name']}: {fresh} analogRead events for two read() calls in one tuple assignment"))
+                    elif text != str(want):
+                        problems.append(("pot-value", f"{p['name']}: second value of a tuple read printed {text}, ADC tape value {want}"))
+                elif waiting and fresh == 2 and False:
+                    pass
                 elif waiting:
                     waiting = False
                     counts["pot_reads"] += 1
                     want = vals[idx] if idx < len(vals) else vals[-1]
                     idx += 1
-                    if fresh != 1:
+                    if fresh == 2 and tuple_next.get(evi):
+                        pass  # first value of a tuple read: both conversions precede the first print (checked at the @A2 marker)
+                    elif fresh != 1:
                         problems.append(("pot-fresh-read", f"{p['name']}.read(): {fresh} analogRead events for one read() call"))
-                    elif text != str(want):
+                    if text != str(want) and not (fresh != 1 and not tuple_next.get(evi)):
                         problems.append(("pot-value", f"{p['name']}.read() printed {text}, ADC tape value {want}"))
     # ---- ultrasonic
     for u in info["us"]:
